@@ -249,6 +249,23 @@ def compare_sliced(chk, progs, exp, real_fn, label: str, extra_check=None, size:
     return tot or {"ok": 0, "zone": 0, "mismatch": 0, "known": 0}
 
 
+def regression_programs(pid: str, first_id: int = 9 * 10 ** 6) -> List[Dict[str, Any]]:
+    """Hand-minimised programs under /verif/regressions/<pid>/*.json (inputs that once exposed a defect since
+    repaired).  They carry no expectation of their own: they simply join the generated batch and are judged
+    by the specification like every other program, so that a regression shows in the quick tier."""
+    from .core import ROOT
+    out = []
+    d = ROOT / "regressions" / pid
+    if d.exists():
+        for f in sorted(d.glob("*.json")):
+            for q in json.loads(f.read_text()):
+                q = dict(q)
+                q.pop("note", None)
+                q["id"] = first_id + len(out)
+                out.append(q)
+    return out
+
+
 # ------------------------------------------------------------------ pinned known-finding cases
 def run_pinned(chk, pid: str) -> None:
     """Concrete failing inputs recorded under /verif/findings/<pid>/*.json (known findings that no
